@@ -159,4 +159,28 @@ theorem envOf_none {DL Loc : Type} (m : Manager DL Loc) (id : String) (o : Nat)
     envOf m (some id) o = ⟨.noSymbols, fun _ => none, m.fileLen⟩ := by
   unfold envOf; simp [h]
 
+/-! ### The external-file loop -/
+
+/-- more fuel does not change a finished resolution -/
+theorem resolveExternal_mono {X C : Type} (im : InnerMap X C) (n : Nat) (r : Option (FLR X))
+    (v : Option (List Frame)) (h : resolveExternal im n r = some v) :
+    resolveExternal im (n + 1) r = some v := by
+  induction n generalizing r with
+  | zero =>
+    cases r with
+    | none => simpa [resolveExternal] using h
+    | some f =>
+      cases f with
+      | available fs => simpa [resolveExternal] using h
+      | external x => simp [resolveExternal] at h
+  | succ n ih =>
+    cases r with
+    | none => simpa [resolveExternal] using h
+    | some f =>
+      cases f with
+      | available fs => simpa [resolveExternal] using h
+      | external x =>
+        simp only [resolveExternal] at h ⊢
+        exact ih _ h
+
 end SourceApi
